@@ -2,55 +2,10 @@
 
 package sftp
 
-import "sync"
 
 //verif:constoverride (*github.com/pkg/sftp.packetManager).workerChan 8 2
 
 
-
-// vPipeline runs the real packet manager (controller goroutine), the real
-// workerChan dispatcher and real sftpServerWorker goroutines (pool of 2 rw
-// workers + 1 command worker) on the given requests, the way Serve does after
-// its receive loop, and returns the marshalled responses in the order sent.
-func vPipeline(svr *Server, reqs []requestPacket) [][]byte {
-	return vPipelineOpt(svr, reqs, true)
-}
-
-// withController=false leaves out the controller goroutine (the responses
-// stay queued in the manager's buffered channel, in completion order).
-func vPipelineOpt(svr *Server, reqs []requestPacket, withController bool) [][]byte {
-	cap := &vCapture{}
-	if withController {
-		svr.pktMgr = newPktMgr(cap)
-	} else {
-		svr.pktMgr = vNewPktMgr(cap)
-	}
-	var wg sync.WaitGroup
-	runWorker := func(ch chan orderedRequest) {
-		wg.Add(1)
-		go func() {
-			defer wg.Done()
-			if err := svr.sftpServerWorker(ch); err != nil {
-				vAssert(false, "worker returned an error")
-			}
-		}()
-	}
-	pktChan := svr.pktMgr.workerChan(runWorker)
-	for _, r := range reqs {
-		pktChan <- svr.pktMgr.newOrderedRequest(r)
-	}
-	close(pktChan)
-	wg.Wait()
-	vQuiesce() // let the controller goroutine finish what it has queued
-	if !withController {
-		// drain in completion order
-		for len(svr.pktMgr.responses) > 0 {
-			r := <-svr.pktMgr.responses
-			cap.sendPacket(r.(orderedResponse).responsePacket)
-		}
-	}
-	return cap.pkts
-}
 
 func vh_C14_write_write_read_close() {
 	vErrKinds = 0
